@@ -26,8 +26,9 @@ def run_op(RaggedArray, p, c):
         ras = [mk_ragged(RaggedArray, d, l) for l, d in c["ops"]]
         return (np.concatenate(ras) if p.get("via") != "axis" else np.concatenate(ras, axis=0)), ras
     if op == "concat1":
-        ras = [mk_ragged(RaggedArray, d, l) for l, d in c["ops"]]
-        return np.concatenate(ras, axis=-1), ras
+        dts = p.get("dts") or ["int64"] * len(c["ops"])
+        ras = [mk_ragged(RaggedArray, d, l, dts[i]) for i, (l, d) in enumerate(c["ops"])]
+        return np.concatenate(ras, axis=-1), (ras if not p.get("dts") else None)
     if op in ("zeros_like", "ones_like", "empty_like"):
         ra = mk_ragged(RaggedArray, c["data"], c["lens"])
         kw = {} if p.get("dtype") is None else {"dtype": p["dtype"]}
@@ -65,8 +66,8 @@ def run_op(RaggedArray, p, c):
             # the indexing form of the same operation: x[starts:ends] with vectors as slice bounds
             from npstructures.mixin import NPSArray
             a = a.view(NPSArray) if src != "ragged" else a
-            return a[st:en], None
-        return ragged_slice(a, st, en), None
+            return a[st:en], (st, en)
+        return ragged_slice(a, st, en), (st, en)          # the caller's start / end vectors are observed afterwards
     raise ValueError(op)
 
 
@@ -85,7 +86,8 @@ def sym(E, p, kf):
             c["ops"] = []
             for i in range(k):
                 lens = [E.concretize(E.int(f"o{i}l{r}", 0, p["L"])) for r in range(R)]
-                c["ops"].append((lens, [E.int(f"o{i}d{q}", -DV, DV) for q in range(sum(lens))]))
+                narrow = bool(p.get("dts")) and p["dts"][i] == "uint8"      # operands of different element types: cells of the narrow one fit it
+                c["ops"].append((lens, [E.int(f"o{i}d{q}", 0 if narrow else -DV, 99 if narrow else DV) for q in range(sum(lens))]))
     elif op == "where":
         c["lens"], c["bits"] = gen_ra(E, "", p["R"], p["L"], kind="bool")
         S = len(c["bits"])
@@ -235,6 +237,8 @@ def sym(E, p, kf):
             firsts.append(s)
             counts.append(z3.If(e - s > 0, e - s, 0))
         conds += specs.ragged_matches(res["flat"], res["lens"], counts, lambda k, col: z3.Select(D, bases[k] + firsts[k] + col)) if res["k"] == "ragged" else [False]
+        for vec, obs in zip((c["starts"], c["ends"]), got["items"][1]["items"]):
+            conds.append(specs.obs_goal(obs, dict(k="array", flat=list(vec), shape=[K], dtype="int64") if vec is not None else dict(k="none")))
     return dict(goal=specs.conj(conds), got=got, case=case)
 
 
@@ -299,7 +303,8 @@ def conc(case):
                 e = c["ends"][i]
                 e = len(r) + e if e < 0 else min(e, len(r))
             out.append(r[s:e] if e > s else [])
-        exp = [R(out, "int64"), dict(k="any")]
+        vecs = [common.ref_array(list(v), [len(v)], "int64") if v is not None else dict(k="none") for v in (c["starts"], c["ends"])]
+        exp = [R(out, "int64"), dict(k="tuple", items=vecs)]
     return got, dict(k="tuple", items=exp)
 
 
@@ -307,7 +312,7 @@ def jobs(tier, seed):
     q = tier == "quick"
     base = dict(R=3 if q else 4, L=3)
     out = [dict(base, op="concat0", k=1), dict(base, op="concat0", k=2, R=2 if q else 3), dict(base, op="concat0", k=2, via="axis", R=2), dict(base, op="concat0", k=3, R=2, L=2),
-           dict(base, op="concat1", k=2, R=2, L=2), dict(base, op="concat1", k=3 if not q else 2, R=3 if not q else 2, L=2)]
+           dict(base, op="concat1", k=2, R=2, L=2), dict(base, op="concat1", k=2, R=2, L=2, dts=["uint8", "int64"]), dict(base, op="concat1", k=3 if not q else 2, R=3 if not q else 2, L=2)]
     for op in ("zeros_like", "ones_like", "empty_like"):
         out.append(dict(base, op=op))
         out.append(dict(base, op=op, dtype="bool"))
